@@ -1,2 +1,13 @@
-(* C10.  Theorems are added here as they are proved. *)
-From PJ.Model Require Import Base.
+(* C10 -- a truncated stream yields only a correct prefix of the data. *)
+From PJ.Model Require Import Base Terms Encoder Streams Decoder.
+From PJ.Proofs Require Import DecoderProofs.
+
+(* What is yielded for the frames that were delivered does not depend on what follows them (or on
+   nothing following them): the results for fs1 ++ fs2 start with exactly the results for fs1, and
+   nothing is added after an error. *)
+Theorem C10_delivered_frames_decide :
+  forall (ig : integ) (ak : adapter_kind) (po : poptions) (fs1 fs2 : list frame) (st : dstate),
+    exists tail, decode_frames ig ak po (fs1 ++ fs2) st = decode_frames ig ak po fs1 st ++ tail /\
+                 (last_err (decode_frames ig ak po fs1 st) <> None -> tail = []).
+Proof. exact frames_prefix. Qed.
+Print Assumptions C10_delivered_frames_decide.
